@@ -70,7 +70,14 @@ fn gen_case(rng: &mut Rng) -> Case {
     rng.shuffle(&mut ids);
     for (i, id) in ids.iter().take(nv).enumerate() {
         let (kind, l, u) = if rng.chance(1, 3) {
-            (KIND_BINARY, 0, 1)
+            // one binary variable in four carries an explicit degenerate bound ([0,0] or [1,1]: a binary fixed
+            // through its bound)
+            if rng.chance(1, 4) {
+                let v = rng.range(0, 1);
+                (KIND_BINARY, v, v)
+            } else {
+                (KIND_BINARY, 0, 1)
+            }
         } else {
             let l = rng.range(-4, 3);
             let u = rng.range(l, 4);
@@ -79,7 +86,7 @@ fn gen_case(rng: &mut Rng) -> Case {
         let kind = if scenario == 2 && i == 0 { *rng.pick(&[KIND_CONTINUOUS, KIND_CONTINUOUS, KIND_SEMI_CONTINUOUS]) } else { kind };
         // scenario 11: a semi-integer variable with bound [l, u], l >= 1 (domain {0} u {l..u})
         let (kind, l, u) = if scenario == 11 && i == 0 { let l = rng.range(1, 3); (KIND_SEMI_INTEGER, l, rng.range(l, 4)) } else { (kind, l, u) };
-        let b = if kind == KIND_BINARY && rng.bool() { None } else { Some((l as f64, u as f64)) };
+        let b = if kind == KIND_BINARY && (l, u) == (0, 1) && rng.bool() { None } else { Some((l as f64, u as f64)) };
         // scenario 10: the first variable has no upper end; with a negative coefficient (below) the
         // inequality is unbounded below and no finite slack range exists
         let b = if scenario == 10 && i == 0 { if rng.bool() { Some((l as f64, f64::INFINITY)) } else { None } } else { b };
@@ -88,8 +95,16 @@ fn gen_case(rng: &mut Rng) -> Case {
         vars.push((*id, l, u));
     }
     // an unrelated variable with a larger id so that "fresh id" is not trivially max of used ones
+    // (half of them sit directly above the largest id and/or are dependent variables left by substitute())
     if nv > 0 && rng.bool() {
-        inst.decision_variables.push(dvar(5000 + rng.below(10), KIND_CONTINUOUS, Some((0.0, 1.0))));
+        let top = vars.iter().map(|v| v.0).max().unwrap();
+        let uid = if rng.bool() { 5000 + rng.below(10) } else { top + 1 };
+        if vars.iter().all(|v| v.0 != uid) {
+            inst.decision_variables.push(dvar(uid, KIND_CONTINUOUS, Some((0.0, 1.0))));
+            if rng.bool() {
+                inst.decision_variable_dependency.insert(uid, f_const(0.5));
+            }
+        }
     }
     let family = rng.below(5);
     let used: Vec<u64> = vars.iter().map(|v| v.0).collect();
@@ -329,6 +344,33 @@ impl Property for C13 {
         let feasible: Vec<bool> = values.iter().map(|(_, v)| holds_le(v)).collect();
         let n_feasible = feasible.iter().filter(|b| **b).count();
         mon.facet_n("lattice-points-enumerated", pts.len() as u64);
+        // For a plainly LINEAR f (every variable stored once, no product) any interval analysis over the box is
+        // exact: its ends are min f and max f, attained at lattice corners. Away from the tolerance (|.| >= 1e-3)
+        // "always holds" and "can never hold" are then known independently, and the statement fixes the branch:
+        // moved to the removed constraints unchanged / an infeasibility error.
+        let plainly_linear = case.semi.is_none() && fpoly.degree() == 1 && !values.is_empty() && {
+            let st = stored_terms(&f);
+            let mut seen = std::collections::BTreeSet::new();
+            st.iter().all(|(ids, _)| ids.len() <= 1 && seen.insert(ids.clone()))
+        };
+        if plainly_linear {
+            let min_f = values.iter().map(|(_, v)| v.clone()).min().unwrap();
+            let max_f = values.iter().map(|(_, v)| v.clone()).max().unwrap();
+            let moved = matches!(&out, Outcome::Ok(_)) && after.constraints.iter().all(|c| c.id != case.cid);
+            if min_f >= q(1e-3) {
+                mon.facet(&format!("{method}/linear-f-can-never-hold"));
+                if !matches!(&out, Outcome::Infeasible { .. }) {
+                    mon.violation(format!("C13.never-holds-but-no-infeasibility-error:{method}"), format!("f is linear with min f = {min_f} > 0 over the box, so interval analysis shows that it can never hold\n{}", ctx(&after, &out)));
+                    return;
+                }
+            } else if max_f <= q(-1e-3) {
+                mon.facet(&format!("{method}/linear-f-always-holds"));
+                if !moved {
+                    mon.violation(format!("C13.always-holds-but-not-moved:{method}"), format!("f is linear with max f = {max_f} < 0 over the box, so interval analysis shows that it always holds\n{}", ctx(&after, &out)));
+                    return;
+                }
+            }
+        }
         match &out {
             Outcome::Err(e) => {
                 if after != before {
